@@ -378,6 +378,13 @@ class UndeclaredNameVisitor(NodeVisitor):
 
         self._visit_scope(*node.targets, *node.body)
 
+    def visit_Scope(self, node: nodes.Scope) -> None:
+        self._visit_scope(*node.body)
+
+    def visit_OverlayScope(self, node: nodes.OverlayScope) -> None:
+        self.visit(node.context)
+        self._visit_scope(*node.body)
+
     def visit_Block(self, node: nodes.Block) -> None:
         """Stop visiting a blocks."""
 
